@@ -9,7 +9,7 @@ from scipy.fftpack import dst as scipy_dst
 RULE = ("Domains built from dr or from dk (lengths 1-64 quick / 1-300 thorough incl. primes and 2^m +- 1, spacings log-uniform 1e-3..10) followed by random "
         "histories of dr/dk/length assignments (<= 8 quick / <= 30 thorough); after EVERY assignment length, dr, dk, len(r), len(k), r, k and the coefficient arrays are "
         "compared with the Lean model and with a freshly constructed Domain(length, dr); to_fourier/to_real of random / spiky / smooth arrays are compared with the "
-        "model's direct DST sums (and the sums with scipy.fftpack.dst), round trips both ways, linearity; MatrixArray versions for rank 1-4 with every space flag "
+        "model's direct DST sums (and the sums with scipy.fftpack.dst), round trips both ways, linearity; MatrixArray versions for rank 1-4 with every space flag and memory layout (C, Fortran, transposed pair-table view, sub-block view) "
         "(pairwise identical transform, symmetry, flag flip, ValueError iff already in the target space, round trip). Non-trivial = history with >= 1 setter or a "
         "non-power-of-two length; distinct = distinct case")
 EXTRA_TRUSTED = ["scipy.fftpack.dst(type=2/3) modelled by SciPy's documented direct sums; validated against SciPy on every run (suite dst); FFT rounding vs direct sum: rtol 1e-9*max|out|"]
@@ -140,7 +140,13 @@ def suite_ma(ctx, case):
     rng = np.random.RandomState(case['aseed'])
     data = rng.normal(size=(L, n, n)); data = data + data.transpose(0, 2, 1)
     for dirn in case['dirs']:
-        m = MatrixArray(length=L, rank=n, data=data.copy(), space=SP[case['sp']])
+        lay = case.get('layout', 'C')
+        if lay == 'F': arr = np.asfortranarray(data.copy())
+        elif lay == 'T': arr = np.ascontiguousarray(data.transpose(2, 1, 0)).T          # view of a (rank, rank, length) pair table
+        elif lay == 'sub':
+            big = np.zeros((L, n + 1, n + 1)); big[:, :n, :n] = data; arr = big[:, :n, :n]  # sub-block view of a larger array
+        else: arr = data.copy()
+        m = MatrixArray(length=L, rank=n, data=arr, space=SP[case['sp']])
         before = m.data.copy(); sp0 = case['sp']
         seq = []
         for step, way in enumerate(dirn):
@@ -236,5 +242,6 @@ def generate(ctx):
         case = gen_dom(rng, ctx.n(24, 64), 0)
         case['rank'] = rng.randint(1, 4); case['sp'] = rng.choice(['R', 'R', 'F', 'F', 'N']); case['aseed'] = rng.randrange(10 ** 6)
         case['dirs'] = [rng.choice(['F', 'R', 'FR', 'RF', 'FF', 'RR', 'FRF', 'RFR'])]
-        ctx.case('ma', case, True, tags=['rank:%d' % case['rank'], 'sp:' + case['sp'], 'dirs:' + case['dirs'][0]])
+        case['layout'] = rng.choice(['C', 'C', 'F', 'T', 'sub'])
+        ctx.case('ma', case, True, tags=['rank:%d' % case['rank'], 'sp:' + case['sp'], 'dirs:' + case['dirs'][0], 'layout:' + case['layout']])
         suite_ma(ctx, case)
